@@ -66,6 +66,7 @@ const (
 	EndFIN            // close the connection (FIN)
 	EndRST            // SetLinger(0) + Close
 	EndPoison         // keep the connection open, never write to it again
+	EndHalfClose      // shutdown(SHUT_WR): the peer sees EOF, its writes still succeed; full close 500 ms later
 )
 
 type ExtraKind int
@@ -564,6 +565,8 @@ func (sc *SConn) emit(q *Query, act Action) {
 			sc.RST()
 		case EndPoison:
 			sc.Poison()
+		case EndHalfClose:
+			sc.HalfClose()
 		}
 	}
 }
@@ -731,6 +734,23 @@ func (sc *SConn) FIN() {
 	}
 	sc.setEnd("server-fin")
 	sc.dead.Store(true)
+	sc.c.Close()
+}
+
+// HalfClose shuts down the sending direction only (TCP FIN / TLS close_notify) and keeps
+// reading for another 500 ms: the peer's reads see EOF while its writes keep succeeding.
+func (sc *SConn) HalfClose() {
+	if sc.c == nil {
+		return
+	}
+	sc.setEnd("server-half-close")
+	sc.dead.Store(true)
+	if cw, ok := sc.c.(interface{ CloseWrite() error }); ok {
+		cw.CloseWrite()
+		c := sc.c
+		time.AfterFunc(500*time.Millisecond, func() { c.Close() })
+		return
+	}
 	sc.c.Close()
 }
 
